@@ -1,0 +1,363 @@
+//go:build verif
+
+// Contracts for the 24-over-12-over-4-over-2 extension tower of this curve (comment-only; installed by /verif/gcv gen-contracts).
+// Layer "ring T": values of type T are elements of an abstract commutative ring and the methods of T are
+// interpreted by the ring operation their own (lower-layer) contract states. The specification products are
+// computed by the tool from the documented defining polynomials:
+//   E2 = Fp[u]/(u^2 - 13)   E4 = E2[v]/(v^2 - xi), xi = (0, 1)   E12 = E4[w]/(w^3 - v)   E24 = E12[i]/(i^2 - w)
+// qmul(nr, a, b) is the schoolbook product of coordinate vectors reduced by X^k = nr.
+
+package fptower
+
+// ---------------- E2 over Fp ----------------
+
+// assembly entry points of the E2 layer on amd64 (e2_amd64.s): assumed contracts, used only under the default tags
+//@ func addE2
+//@ tags default
+//@ assumed assembly (e2_amd64.s): contract of the portable addE2 assumed
+//@ layer ring fp.Element
+//@ ensures[value] vec(arg0) == vadd(old(vec(arg1)), old(vec(arg2)))
+//@ modifies arg0
+//@ end
+
+//@ func subE2
+//@ tags default
+//@ assumed assembly (e2_amd64.s): contract of the portable subE2 assumed
+//@ layer ring fp.Element
+//@ ensures[value] vec(arg0) == vsub(old(vec(arg1)), old(vec(arg2)))
+//@ modifies arg0
+//@ end
+
+//@ func doubleE2
+//@ tags default
+//@ assumed assembly (e2_amd64.s): contract of the portable doubleE2 assumed
+//@ layer ring fp.Element
+//@ ensures[value] vec(arg0) == vscale(2, old(vec(arg1)))
+//@ modifies arg0
+//@ end
+
+//@ func negE2
+//@ tags default
+//@ assumed assembly (e2_amd64.s): contract of the portable negE2 assumed
+//@ layer ring fp.Element
+//@ ensures[value] vec(arg0) == vscale(-1, old(vec(arg1)))
+//@ modifies arg0
+//@ end
+
+//@ func mulGenericE2
+//@ layer ring fp.Element
+//@ ensures[value] vec(z) == qmul(13, old(vec(x)), old(vec(y)))
+//@ modifies z
+//@ end
+
+//@ func E2.Mul
+//@ tags purego
+//@ layer ring fp.Element
+//@ ensures[value] vec(z) == qmul(13, old(vec(x)), old(vec(y)))
+//@ ensures[result] result == z
+//@ modifies z
+//@ end
+
+//@ func E2.Square
+//@ tags any
+//@ layer ring fp.Element
+//@ ensures[value] vec(z) == qsq(13, old(vec(x)))
+//@ ensures[result] result == z
+//@ modifies z
+//@ end
+
+//@ func E2.MulByNonResidue
+//@ tags purego
+//@ layer ring fp.Element
+//@ ensures[value] vec(z) == qmul(13, svec(2, 0, 0, 1, 1), old(vec(x)))
+//@ ensures[result] result == z
+//@ modifies z
+//@ end
+
+//@ func E2.Add
+//@ tags any
+//@ layer ring fp.Element
+//@ ensures[value] vec(z) == vadd(old(vec(x)), old(vec(y)))
+//@ ensures[result] result == z
+//@ modifies z
+//@ end
+
+//@ func E2.Sub
+//@ tags any
+//@ layer ring fp.Element
+//@ ensures[value] vec(z) == vsub(old(vec(x)), old(vec(y)))
+//@ ensures[result] result == z
+//@ modifies z
+//@ end
+
+//@ func E2.Double
+//@ tags any
+//@ layer ring fp.Element
+//@ ensures[value] vec(z) == vscale(2, old(vec(x)))
+//@ ensures[result] result == z
+//@ modifies z
+//@ end
+
+//@ func E2.Neg
+//@ tags any
+//@ layer ring fp.Element
+//@ ensures[value] vec(z) == vscale(-1, old(vec(x)))
+//@ ensures[result] result == z
+//@ modifies z
+//@ end
+
+//@ func E2.Conjugate
+//@ layer ring fp.Element
+//@ ensures[value] vec(z) == vconj2(old(vec(x)))
+//@ ensures[result] result == z
+//@ modifies z
+//@ end
+
+//@ func E2.MulByElement
+//@ layer ring fp.Element
+//@ ensures[value] vec(z) == vscale(old(*y), old(vec(x)))
+//@ ensures[result] result == z
+//@ modifies z
+//@ end
+
+//@ func E2.norm
+//@ layer ring fp.Element
+//@ alias none
+//@ ensures[value] *x == vec(z)[0]*vec(z)[0] - 13*vec(z)[1]*vec(z)[1]
+//@ modifies x
+//@ end
+
+//@ func E2.Set
+//@ layer ring fp.Element
+//@ ensures[value] vec(z) == old(vec(x))
+//@ ensures[result] result == z
+//@ modifies z
+//@ end
+
+// ---------------- E4 over E2 ----------------
+
+//@ func E4.Mul
+//@ layer ring E2
+//@ ensures[value] vec(z) == qmul(NR_E2, old(vec(x)), old(vec(y)))
+//@ ensures[result] result == z
+//@ modifies z
+//@ end
+
+//@ func E4.Square
+//@ layer ring E2
+//@ ensures[value] vec(z) == qsq(NR_E2, old(vec(x)))
+//@ ensures[result] result == z
+//@ modifies z
+//@ end
+
+//@ func E4.MulByNonResidue
+//@ layer ring E2
+//@ ensures[value] vec(z) == qmul(NR_E2, svec(2, 1, 1), old(vec(x)))
+//@ ensures[result] result == z
+//@ modifies z
+//@ end
+
+//@ func E4.Add
+//@ layer ring E2
+//@ ensures[value] vec(z) == vadd(old(vec(x)), old(vec(y)))
+//@ ensures[result] result == z
+//@ modifies z
+//@ end
+
+//@ func E4.Sub
+//@ layer ring E2
+//@ ensures[value] vec(z) == vsub(old(vec(x)), old(vec(y)))
+//@ ensures[result] result == z
+//@ modifies z
+//@ end
+
+//@ func E4.Double
+//@ layer ring E2
+//@ ensures[value] vec(z) == vscale(2, old(vec(x)))
+//@ ensures[result] result == z
+//@ modifies z
+//@ end
+
+//@ func E4.Neg
+//@ layer ring E2
+//@ ensures[value] vec(z) == vscale(-1, old(vec(x)))
+//@ ensures[result] result == z
+//@ modifies z
+//@ end
+
+//@ func E4.Conjugate
+//@ layer ring E2
+//@ ensures[value] vec(z) == vconj2(old(vec(x)))
+//@ ensures[result] result == z
+//@ modifies z
+//@ end
+
+//@ func E4.Set
+//@ layer ring E2
+//@ ensures[value] vec(z) == old(vec(x))
+//@ ensures[result] result == z
+//@ modifies z
+//@ end
+
+//@ func E4.norm
+//@ layer ring E2
+//@ alias none
+//@ ensures[value] *x == vec(z)[0]*vec(z)[0] - NR_E2*vec(z)[1]*vec(z)[1]
+//@ modifies x
+//@ end
+
+// ---------------- E12 over E4 ----------------
+
+//@ func E12.Mul
+//@ layer ring E4
+//@ ensures[value] vec(z) == qmul(NR_E4, old(vec(x)), old(vec(y)))
+//@ ensures[result] result == z
+//@ modifies z
+//@ end
+
+//@ func E12.Square
+//@ layer ring E4
+//@ ensures[value] vec(z) == qsq(NR_E4, old(vec(x)))
+//@ ensures[result] result == z
+//@ modifies z
+//@ end
+
+//@ func E12.MulByNonResidue
+//@ layer ring E4
+//@ ensures[value] vec(z) == qmul(NR_E4, svec(3, 1, 1), old(vec(x)))
+//@ ensures[result] result == z
+//@ modifies z
+//@ end
+
+//@ func E12.MulByE2
+//@ layer ring E4
+//@ option interior
+//@ ensures[value] vec(z) == vscale(old(*y), old(vec(x)))
+//@ ensures[result] result == z
+//@ modifies z
+//@ end
+
+//@ func E12.MulBy01
+//@ layer ring E4
+//@ option interior
+//@ ensures[value] vec(z) == qmul(NR_E4, old(vec(z)), svec(3, 0, old(*c0), 1, old(*c1)))
+//@ ensures[result] result == z
+//@ modifies z
+//@ end
+
+//@ func E12.Add
+//@ layer ring E4
+//@ ensures[value] vec(z) == vadd(old(vec(x)), old(vec(y)))
+//@ ensures[result] result == z
+//@ modifies z
+//@ end
+
+//@ func E12.Sub
+//@ layer ring E4
+//@ ensures[value] vec(z) == vsub(old(vec(x)), old(vec(y)))
+//@ ensures[result] result == z
+//@ modifies z
+//@ end
+
+//@ func E12.Double
+//@ layer ring E4
+//@ ensures[value] vec(z) == vscale(2, old(vec(x)))
+//@ ensures[result] result == z
+//@ modifies z
+//@ end
+
+//@ func E12.Neg
+//@ layer ring E4
+//@ ensures[value] vec(z) == vscale(-1, old(vec(x)))
+//@ ensures[result] result == z
+//@ modifies z
+//@ end
+
+//@ func E12.Set
+//@ layer ring E4
+//@ ensures[value] vec(z) == old(vec(x))
+//@ ensures[result] result == z
+//@ modifies z
+//@ end
+
+// ---------------- E24 over E12 ----------------
+
+//@ func E24.Mul
+//@ layer ring E12
+//@ ensures[value] vec(z) == qmul(NR_E12, old(vec(x)), old(vec(y)))
+//@ ensures[result] result == z
+//@ modifies z
+//@ end
+
+//@ func E24.Square
+//@ layer ring E12
+//@ ensures[value] vec(z) == qsq(NR_E12, old(vec(x)))
+//@ ensures[result] result == z
+//@ modifies z
+//@ end
+
+//@ func E24.Add
+//@ layer ring E12
+//@ ensures[value] vec(z) == vadd(old(vec(x)), old(vec(y)))
+//@ ensures[result] result == z
+//@ modifies z
+//@ end
+
+//@ func E24.Sub
+//@ layer ring E12
+//@ ensures[value] vec(z) == vsub(old(vec(x)), old(vec(y)))
+//@ ensures[result] result == z
+//@ modifies z
+//@ end
+
+//@ func E24.Double
+//@ layer ring E12
+//@ ensures[value] vec(z) == vscale(2, old(vec(x)))
+//@ ensures[result] result == z
+//@ modifies z
+//@ end
+
+//@ func E24.Conjugate
+//@ layer ring E12
+//@ ensures[value] vec(z) == vconj2(old(vec(x)))
+//@ ensures[result] result == z
+//@ modifies z
+//@ end
+
+// ---------------- E24 as E4[w]/(w^6 - xi): sparse products agree with the generic product ----------------
+
+//@ func E24.MulBy034
+//@ layer ring E4
+//@ option interior
+//@ ensures[value] tvec(z) == t12mul(NR_E4, old(tvec(z)), svec(6, 0, old(*c0), 3, old(*c3), 4, old(*c4)))
+//@ ensures[result] result == z
+//@ modifies z
+//@ end
+
+//@ func E24.MulBy34
+//@ layer ring E4
+//@ option interior
+//@ ensures[value] tvec(z) == t12mul(NR_E4, old(tvec(z)), svec(6, 0, 1, 3, old(*c3), 4, old(*c4)))
+//@ ensures[result] result == z
+//@ modifies z
+//@ end
+
+//@ func Mul034By034
+//@ layer ring E4
+//@ ensures[value] svec(6, 0, result[0], 1, result[1], 2, result[2], 3, result[3], 4, result[4]) == t12mul(NR_E4, svec(6, 0, *d0, 3, *d3, 4, *d4), svec(6, 0, *c0, 3, *c3, 4, *c4))
+//@ modifies nothing
+//@ end
+
+//@ func Mul34By34
+//@ layer ring E4
+//@ ensures[value] svec(6, 0, result[0], 1, result[1], 2, result[2], 3, result[3], 4, result[4]) == t12mul(NR_E4, svec(6, 0, 1, 3, *d3, 4, *d4), svec(6, 0, 1, 3, *c3, 4, *c4))
+//@ modifies nothing
+//@ end
+
+//@ func E24.MulBy01234
+//@ layer ring E4
+//@ option interior
+//@ ensures[value] tvec(z) == t12mul(NR_E4, old(tvec(z)), svec(6, 0, old(x[0]), 1, old(x[1]), 2, old(x[2]), 3, old(x[3]), 4, old(x[4])))
+//@ ensures[result] result == z
+//@ modifies z
+//@ end
